@@ -310,6 +310,111 @@ def make_execute(prop_id):
     return execute
 
 
+# ----------------------------------------------------------------------------- sync pool: fault enumeration on the inline driver
+
+def sync_cases(tier):
+    from ..drivers import build_pool, sync_request  # noqa: F401
+
+    cases = []
+    kinds = [k for k in KIND_LIST]
+    for kind in kinds:
+        for shape in SHAPES:
+            elig = _sync_base(kind, shape)
+            for idx, opkind in elig:
+                for fault in FAULTS[opkind]:
+                    cases.append({"kind": kind, "shape": shape, "faults": [{"at": idx, "fault": fault}], "sync": True})
+    return cases
+
+
+_SYNC_BASE: dict = {}
+
+
+def _sync_run(case):
+    from ..drivers import build_pool, sync_request
+
+    kind, shape = case["kind"], case["shape"]
+    pool_cfg, cfg, scheme = topo(kind, pool_extra={"max_connections": 1},
+                                 plans={"v0": {"framing": "chunked", "chunks": [4], "body_len": 12, "h2_frames": [5]}},
+                                 hosts=("a.test", "b.test", "p0.test", "p1.test"))
+    world = World(peer_factory=cfg.peer_factory, faults=[dict(f) for f in case.get("faults", [])])
+    pool = build_pool(world, pool_cfg, sync=True)
+    step = step_for(scheme, "a.test", "v0", shape)
+    spec = dict(step["spec"])
+    if step["mode"] != "read_all":
+        spec.update(api="stream", read=step["mode"]["read_chunks"])
+    out = sync_request(pool, spec)
+    world_faults_fired = list(world.fired_faults)
+    world.victim_ops = len(world.trace)
+    world.faults = []
+    res = {"repr": repr(pool), "conns": [(conn_state(c), c.is_idle(), c.is_closed(), c.has_expired(), c.is_available()) for c in pool.connections],
+           "open_before": [p.id for p in world.open_pipes()]}
+    # ownership walk works on the sync classes too (SimStream objects)
+    from ..simnet import SimStream
+
+    seen, owned, stack = set(), set(), list(pool.connections)
+    while stack:
+        obj = stack.pop()
+        if id(obj) in seen:
+            continue
+        seen.add(id(obj))
+        if isinstance(obj, SimStream):
+            owned.add(obj.pipe.id)
+            continue
+        for v in getattr(obj, "__dict__", {}).values():
+            if (type(v).__module__ or "").startswith("httpcore") or isinstance(v, SimStream):
+                stack.append(v)
+    res["owned"] = sorted(owned)
+    probe = []
+    for i, host in enumerate(["a.test", "p1.test"]):
+        o = sync_request(pool, {"method": "GET", "url": f"{scheme}://{host}/t/probe{i}", "timeouts": {"pool": 0}})
+        probe.append(o.get("status") or o["exc"]["name"])
+    res["probe"] = probe
+    pool.close()
+    res["open_after_close"] = [(p.id, p.target) for p in world.open_pipes()]
+    return world, out, res, world_faults_fired
+
+
+def _sync_base(kind, shape):
+    key = (kind, shape)
+    if key not in _SYNC_BASE:
+        world, out, res, _ = _sync_run({"kind": kind, "shape": shape})
+        _SYNC_BASE[key] = [(o["elig"], o["kind"]) for o in world.trace[:world.victim_ops] if "elig" in o]
+    return _SYNC_BASE[key]
+
+
+def make_sync_execute(prop_id):
+    def execute(case) -> Outcome:
+        from ..topo import REFUSALS
+
+        world, out, res, fired = _sync_run(case)
+        v5, v6 = [], []
+        family = case["kind"].split("-")[0]
+        f = fired[0] if fired else None
+        base = dict(conn=case["kind"] if family in ("direct", "prior") else family, trigger="fault-" + f["fault"] if f else "none",
+                    site=f["kind"] if f else "none", variant="sync")
+        what = f"[sync] {case['kind']}/alone/{case['shape']} faults={case.get('faults')}"
+        if out["exc"] is not None and out["exc"]["type"] == "HANG":
+            v5.append(V("C05", "hang", f"{what}: {out['exc']['msg']}", **base))
+        if "Requests: 0 active, 0 queued" not in res["repr"]:
+            v5.append(V("C05", "request-not-removed", f"{what}: the caller has returned but the pool reports {res['repr']}", **base))
+        for info, idle, closed, expired, avail in res["conns"]:
+            if not (idle or closed or expired):
+                state = info.split(", ")[2] if info.count(", ") >= 2 else info
+                v5.append(V("C05", "stuck-connection", f"{what}: the pool keeps a connection that is neither idle, closed nor expired: {info!r}", state=state, **base))
+        ok_probe = (200, "ProxyError") if case["kind"] in REFUSALS else (200,)
+        if any(p not in ok_probe for p in res["probe"]):
+            v5.append(V("C05", "capacity-lost", f"{what}: sequential probes at max_connections=1 got {res['probe']} (pool before: {res['repr']}, {[c[0] for c in res['conns']]})", **base))
+        unowned = [p for p in res["open_before"] if p not in res["owned"]]
+        if unowned:
+            v6.append(V("C06", "stream-unowned", f"{what}: stream(s) {unowned} open but not reachable from any pooled connection (pool: {res['repr']})", **base))
+        if res["open_after_close"]:
+            v6.append(V("C06", "stream-open-after-pool-close", f"{what}: streams still open after pool.close(): {res['open_after_close']}", **base))
+        vio = v5 if prop_id == "C05" else v6
+        return Outcome(vio[:5], [case["kind"], "sync", "shape-" + case["shape"]] + (["fault-" + f["kind"]] if f else []), bool(f),
+                       info={"outcome": out.get("status") or out["exc"]["name"], "probe": res["probe"], "pool": res["repr"]})
+    return execute
+
+
 @st.composite
 def random_cases(draw):
     kind = draw(st.sampled_from(KIND_LIST))
@@ -344,7 +449,8 @@ RULE5 = ("enumerated layer: connection kind (direct h1 plain/TLS, h2 via ALPN / 
          "cancellation at drawn positions, drawn schedule and read segmentation. Non-trivial: the fault or cancellation actually fired; "
          "distinct by (kind, context, shape, trigger position, schedule).")
 
-ASSUME = ["asyncio driver only in this layer (sync pools have no cancellation; their fault behaviour is covered by the C18 differential)",
+ASSUME = ["cancellation layers run on asyncio + anyio (no trio run); the sync pool gets the fault half in layer 'sync-faults' (every fault position x kind of "
+          "every connection kind x shape, single caller, followed by two sequential probes and pool.close())",
           "faults are the documented failure kinds of each backend operation; an error fault breaks the simulated pipe like a reset",
           "state is judged only after every caller has returned and the event loop is quiescent",
           "ownership of a stream = reachable through httpcore objects from pool.connections (attribute graph walk)"]
@@ -354,6 +460,7 @@ PROP = Prop(
     layers=[
         Layer("enumerated", cases=enum_cases, execute=make_execute("C05")),
         Layer("random", strategy=random_cases, execute=make_execute("C05"), budget={"quick": 1200, "thorough": 60000}),
+        Layer("sync-faults", cases=sync_cases, execute=make_sync_execute("C05")),
     ],
     assumptions=ASSUME,
     explanation="The enumerated layer is exhaustive over fault positions x kinds and cancellation points x styles for the listed base scenarios.",
